@@ -156,7 +156,9 @@ class ConnModel(object):
             # handshake has been started by either side: the client's close time-out must then end the connection by itself.
             if self.cfg.get('silent_tail') and self.hs == 'done' and not self.transport_down and (
                     self.client_close == 'sent' or self.server_close is not None or self.cfg.get('silent_tail') == 'always'):
-                menu = ['silence']
+                # 'trickle_tail': instead of staying silent the server keeps the socket readable -- one byte of a frame that never
+                # completes, more often than the poll interval; time-outs must fire all the same
+                menu = ['trickle'] if self.cfg.get('trickle_tail') and self.kind is None else ['silence']
                 self.sites.add('silent-tail')
             else:
                 menu = ['eof']
@@ -184,6 +186,11 @@ class ConnModel(object):
             return W.Err()
         if name == 'silence':
             return W.Silence()
+        if name == 'trickle':
+            if not getattr(self, 'trickling', False):
+                self.trickling = True
+                return W.Data(b'\x82\x7e\x03\xe8', delay=2)      # header of a 1000-byte binary frame
+            return W.Data(b't', delay=2)
         if name in HS_STEPS:
             return self.handshake_step(name, world, conn)
         if name.endswith('!fail'):
